@@ -190,6 +190,28 @@ def channel_case(p, res):
                         break
             except Exception as e:  # noqa: BLE001
                 v("raises", f"0-d tensor parameter / repeated calls: {type(e).__name__}: {str(e)[:200]}")
+        # ------------- (i'') double-precision signals: same law (a channel may decline a dtype, it may not deliver another power)
+        for val in (values[0], values[len(values) // 2], values[-1]):
+            xd = signal(N, 1.0, cplx, 1)
+            xd = xd.to(torch.complex128 if cplx else torch.float64)
+            run, ref = build(ch, par, val, mode)
+            try:
+                with Seam(Quantile()):
+                    y = run(xd)
+                fx = ref(xd)
+            except Exception:  # noqa: BLE001
+                res.rejected += 1
+                continue
+            res.ev(1, nontrivial=1, transitions=1)
+            if tuple(y.shape) != tuple(xd.shape):
+                v("power", f"double-precision input: output shape {tuple(y.shape)} for input {tuple(xd.shape)}")
+                continue
+            n = (y - fx).to(torch.complex128 if (y.is_complex() or fx.is_complex()) else torch.float64)
+            pn = float((n.abs() ** 2).mean())
+            fxp = float((fx.to(torch.complex128 if fx.is_complex() else torch.float64).abs() ** 2).mean())
+            want = val if par == "power" else fxp / 10 ** (val / 10) if par == "snr" else 2 * val ** 2 * (2 if cplx else 1)
+            if not (abs(pn - want) <= TOL * want):
+                v("power" if par != "snr" else "snr", f"double-precision input, {par}={val}: measured noise power {pn:.6g}, configured {want:.6g} (ratio {pn / want:.4f})", {"val": val, "double": True})
         # ------------- (ii) exact scale law under the alphabet policy (Gaussian channels: y = f(x) + s*z elementwise)
         L = 6
         zs = [0.5, -1.25, 2.0, -0.75, 1.5, -2.5, 0.25, 1.0, -1.0, 3.0, -0.5, 0.75]
